@@ -486,4 +486,194 @@ theorem readLinesT_eq (m : Model) (e : Enc) : ∀ (ls : List Bytes) (s : RState)
           simp only [obs, Except.error.injEq, Prod.mk.injEq] at hs
           simp only [obsL, hs.1, hs.2]
 
+/-! ### the minimum record length -/
+
+theorem utf8Encode_pos (r : Nat) : 1 ≤ (utf8Encode r).length := by
+  unfold utf8Encode
+  repeat' split
+  all_goals simp
+
+theorem decode_length_ge (cm : Charmap) : ∀ (x : Bytes), x.length ≤ (cm.decode x).length := by
+  intro x
+  unfold Charmap.decode
+  induction x with
+  | nil => simp
+  | cons b r ih =>
+    simp only [List.flatMap_cons, List.length_append, List.length_cons]
+    have := utf8Encode_pos (cm.dec.getD b.toNat 0xFFFD)
+    omega
+
+theorem forWidths_eq (dec : Bytes → Bytes) (l : Bytes) : ∀ (ws : List Nat) (stop : Nat),
+    (match ReaderRT.forWidths ws stop (fun width end_ =>
+        if l.length < (end_ + width) then Sum.inl (end_ + width) else
+        let field := dec ((l.drop end_).take ((end_ + width) - end_))
+        let n : Int := parseNum field
+        if n < 0 then Sum.inl (l.length + 1) else
+        let end_ : Nat := end_ + (width + n.toNat)
+        Sum.inr end_) with
+      | Sum.inl r => r
+      | Sum.inr end_ => end_) = ivMinLen dec l stop ws := by
+  intro ws
+  induction ws with
+  | nil => intro stop; rfl
+  | cons w r ih =>
+    intro stop
+    unfold ReaderRT.forWidths ivMinLen
+    simp only [Nat.add_sub_cancel_left]
+    by_cases h1 : l.length < stop + w
+    · simp only [h1, if_true]
+    · simp only [h1, if_false]
+      by_cases h2 : parseNum (dec ((l.drop stop).take w)) < 0
+      · simp only [h2, if_true]
+      · simp only [h2, if_false]
+        have := ih (stop + (w + (parseNum (dec ((l.drop stop).take w))).toNat))
+        simp only [Nat.add_sub_cancel_left] at this
+        rw [Nat.add_assoc]
+        exact this
+
+theorem kindOfLine_short (l : Bytes) (h : l.length < 2) : kindOfLine l = none := by
+  unfold kindOfLine
+  rw [List.find?_eq_none]
+  intro k _
+  have hl : (l.take 2).length < 2 := by simp only [List.length_take]; omega
+  have h1 : (l.take 2 == k.tag) = false := by
+    rw [beq_eq_false_iff_ne]; intro he; rw [he] at hl; cases k <;> simp [Kind.tag] at hl
+  have h2 : (l.take 2 == ebcTag k.tag) = false := by
+    rw [beq_eq_false_iff_ne]; intro he; rw [he] at hl; cases k <;> simp [Kind.tag, ebcTag] at hl
+  simp [h1, h2]
+
+theorem keyed_head (m : Model) (e : Enc) (l : Bytes) (h : ¬ l.length < 22) :
+    ¬ ((if e.ebcdic = true then m.cm.decode else id) (l.take 22)).length < 22 := by
+  have h22 : (l.take 22).length = 22 := by simp only [List.length_take]; omega
+  cases e.ebcdic
+  · simp only [Bool.false_eq_true, if_false, id, h22]; omega
+  · simp only [if_true]
+    have := decode_length_ge m.cm (l.take 22)
+    omega
+
+/-- **`Reader.minRecordLength` (with `minImageViewDataLength`) as translated from reader.go is the model's `minLen`** -/
+theorem minRecordLength_eq (m : Model) (e : Enc) (l : Bytes) : Gen.R.minRecordLength m e l = minLen m e l := by
+  unfold Gen.R.minRecordLength minLen Gen.R.minImageViewDataLength
+  by_cases hs : l.length < 2
+  · simp only [hs, if_true, kindOfLine_short l hs]
+  · simp only [hs, if_false]
+    have hkey : ∀ (X : Nat), (if l.length < 22 then 46 else
+        if ((if e.ebcdic = true then m.cm.decode else id) (l.take 22)).length < 22 then 46 else X) =
+        (if l.length < 22 then 46 else X) := by
+      intro X
+      by_cases h22 : l.length < 22
+      · simp only [h22, if_true]
+      · simp only [h22, if_false, keyed_head m e l h22]
+    unfold kindOfLine
+    generalize hT : l.take 2 = T
+    by_cases h1 : T = [0x32, 0x37]
+    · subst h1; simp only [hkey, forWidths_eq]; rfl
+    by_cases h2 : T = [0xF2, 0xF7]
+    · subst h2; simp only [hkey, forWidths_eq]; rfl
+    by_cases h3 : T = [0x33, 0x34]
+    · subst h3; simp only [hkey, forWidths_eq]; rfl
+    by_cases h4 : T = [0xF3, 0xF4]
+    · subst h4; simp only [hkey, forWidths_eq]; rfl
+    by_cases h5 : T = [0x35, 0x32]
+    · subst h5
+      have e1 : ([[0x32, 0x37], [0xF2, 0xF7], [0x33, 0x34], [0xF3, 0xF4]] : List Bytes).contains [0x35, 0x32] = false := by decide
+      have e2 : ([[0x35, 0x32], [0xF5, 0xF2]] : List Bytes).contains [0x35, 0x32] = true := by decide
+      have e3 : Kind.all.find? (fun k => ([0x35, 0x32] : Bytes) == k.tag || ([0x35, 0x32] : Bytes) == ebcTag k.tag) = some Kind.ivData := by decide
+      simp only [e1, e2, e3, Bool.false_eq_true, if_false, if_true]
+      by_cases h80 : l.length < 80
+      · simp only [h80, if_true]
+      · simp only [h80, if_false]
+        exact forWidths_eq _ l [4, 5, 7] 101
+    by_cases h6 : T = [0xF5, 0xF2]
+    · subst h6
+      have e1 : ([[0x32, 0x37], [0xF2, 0xF7], [0x33, 0x34], [0xF3, 0xF4]] : List Bytes).contains [0xF5, 0xF2] = false := by decide
+      have e2 : ([[0x35, 0x32], [0xF5, 0xF2]] : List Bytes).contains [0xF5, 0xF2] = true := by decide
+      have e3 : Kind.all.find? (fun k => ([0xF5, 0xF2] : Bytes) == k.tag || ([0xF5, 0xF2] : Bytes) == ebcTag k.tag) = some Kind.ivData := by decide
+      simp only [e1, e2, e3, Bool.false_eq_true, if_false, if_true]
+      by_cases h80 : l.length < 80
+      · simp only [h80, if_true]
+      · simp only [h80, if_false]
+        exact forWidths_eq _ l [4, 5, 7] 101
+    have c1 : ([[0x32, 0x37], [0xF2, 0xF7], [0x33, 0x34], [0xF3, 0xF4]] : List Bytes).contains T = false := by
+      have b1 : (T == [0x32, 0x37]) = false := beq_eq_false_iff_ne.mpr h1
+      have b2 : (T == [0xF2, 0xF7]) = false := beq_eq_false_iff_ne.mpr h2
+      have b3 : (T == [0x33, 0x34]) = false := beq_eq_false_iff_ne.mpr h3
+      have b4 : (T == [0xF3, 0xF4]) = false := beq_eq_false_iff_ne.mpr h4
+      simp only [List.contains, List.elem, b1, b2, b3, b4]
+    have c2 : ([[0x35, 0x32], [0xF5, 0xF2]] : List Bytes).contains T = false := by
+      have b5 : (T == [0x35, 0x32]) = false := beq_eq_false_iff_ne.mpr h5
+      have b6 : (T == [0xF5, 0xF2]) = false := beq_eq_false_iff_ne.mpr h6
+      simp only [List.contains, List.elem, b5, b6]
+    simp only [c1, c2, Bool.false_eq_true, if_false]
+    cases hk : Kind.all.find? (fun k => T == k.tag || T == ebcTag k.tag) with
+    | none => rfl
+    | some k =>
+      have hp := List.find?_some hk
+      cases k <;> first | rfl | (exfalso; simp [Kind.tag, ebcTag] at hp; simp_all)
+
+/-- an error reported by a step of the model carries the number of the current line -/
+theorem rstep_err_line (m : Model) (e : Enc) (s : RState) (l : Bytes) (s' : RState) (er : RErr)
+    (h : rstep m e s l = .error (s', er)) : er.line = s.lineNum := by
+  unfold rstep at h
+  simp only [] at h
+  repeat' split at h
+  all_goals (try (cases h <;> rfl))
+  all_goals (simp only [bind, Except.bind] at h; repeat' split at h)
+  all_goals (try (cases h <;> rfl))
+
+/-- the scan loop of `Reader.Read` as translated: `readBody` for every line until one is refused -/
+def readLinesB (m : Model) (e : Enc) : List Bytes → RState → RState × Option RErr
+  | [], s => (s, none)
+  | l :: r, s =>
+    match Gen.R.readBody m e s l with
+    | .ok s' => readLinesB m e r s'
+    | .error (s', er) => (s', some er)
+
+/-- **the scan loop of `Reader.Read` as translated from reader.go returns what the model's loop returns** (with `minRecordLength_eq` for the length check) -/
+theorem readLinesB_eq (m : Model) (e : Enc) : ∀ (ls : List Bytes) (s : RState),
+    obsL (readLinesB m e ls s) = obsL (readLines m e ls s) := by
+  intro ls
+  induction ls with
+  | nil => intro s; rfl
+  | cons l r ih =>
+    intro s
+    unfold readLinesB readLines Gen.R.readBody
+    simp only [minRecordLength_eq]
+    by_cases hlen : l.length < minLen m e l
+    · simp only [hlen, if_true]
+    · simp only [hlen, if_false]
+      have hs := step_eq m e { s with lineNum := s.lineNum + 1 } l
+      cases hg : Gen.R.step m e { s with lineNum := s.lineNum + 1 } l with
+      | ok s1 =>
+        cases hr : rstep m e { s with lineNum := s.lineNum + 1 } l with
+        | ok s2 =>
+          rw [hg, hr] at hs
+          simp only [obs, Except.ok.injEq] at hs
+          subst hs
+          exact ih s1
+        | error p => rw [hg, hr] at hs; cases p; simp [obs] at hs
+      | error p =>
+        cases hr : rstep m e { s with lineNum := s.lineNum + 1 } l with
+        | ok s2 => rw [hg, hr] at hs; cases p; simp [obs] at hs
+        | error q =>
+          rw [hg, hr] at hs
+          obtain ⟨s1, e1⟩ := p
+          obtain ⟨s2, e2⟩ := q
+          simp only [obs, Except.error.injEq, Prod.mk.injEq] at hs
+          have hline := rstep_err_line m e _ l s2 e2 hr
+          have he2 : ({ e2 with line := s.lineNum + 1 } : RErr) = e2 := by
+            cases e2; simp only [RErr.mk.injEq, and_true, true_and] at hline ⊢; exact hline.symm
+          simp only [obsL, hs.1, hs.2, he2]
+
+/-- **the checks `Reader.Read` makes behind the scan loop, as translated, are the model's** -/
+theorem readFinish_eq (s : RState) (scanErr : Bool) :
+    Gen.R.readFinish s scanErr =
+      (if scanErr then some { wrapped := true, line := s.lineNum, record := s.recordName, cls := .file, field := "LineNumber" }
+       else if s.headerUntouched then some { wrapped := true, line := s.lineNum, record := "FileHeader", cls := .file, field := "" }
+       else if (s.control.s "recordType").isEmpty then some { wrapped := true, line := s.lineNum, record := "FileControl", cls := .file, field := "" }
+       else if s.cur.header.isSome then some { wrapped := true, line := s.lineNum, record := "CashLetterControl", cls := .file, field := "" }
+       else none) := by
+  unfold Gen.R.readFinish ReaderRT.controlSet RState.err
+  cases scanErr <;> cases s.headerUntouched <;> cases (s.control.s "recordType").isEmpty <;> cases s.cur.header.isSome <;> rfl
+
 end Icl.ReaderEq
